@@ -81,17 +81,34 @@ pub fn replay_line(st: &mut Stats, opts: &CoreOpts, idx: usize, line: &Value) {
                 let (_, rt) = roundtrip(ont);
                 check(st, opts, line, conc, "roundtrip/as_bytes-from_bytes", &rt, &enc::restrict(&expd, 3), &focus);
             }
+            // obsolete / replaced terms are reachable only through the binary and text constructors;
+            // the flags are metadata and must not influence links, closure or information content
+            let mut scn_f = scn.clone();
+            let mut exp_f = exp.clone();
+            for (i, t) in scn_f.terms.iter_mut().enumerate() {
+                if i % 2 == 1 {
+                    t.obsolete = true;
+                    if i % 4 == 1 {
+                        t.repl = Some(1);
+                    }
+                }
+                let e = exp_f.terms.get_mut(&t.id).unwrap();
+                e.obsolete = t.obsolete;
+                e.repl = t.repl;
+            }
             for v in 1..=3u8 {
                 let (_, b) = via_binary(&scn, v, None);
                 check(st, opts, line, conc, &format!("binary/v{v}"), &b, &enc::restrict(&exp, v), &focus);
-                let (_, b) = via_binary(&scn, v, Some(rng.next()));
-                check(st, opts, line, conc, &format!("binary/v{v}-permuted"), &b, &enc::restrict(&exp, v), &focus);
+                let (_, b) = via_binary(&scn_f, v, Some(rng.next()));
+                check(st, opts, line, conc, &format!("binary/v{v}-permuted+flags"), &b, &enc::restrict(&exp_f, v), &focus);
             }
             if !only_records && opts.jax_every > 0 && (idx as u64) % opts.jax_every == 0 {
                 let files = jax_plain(&scn, None);
                 check(st, opts, line, conc, "jax/from_standard", &via_jax(&files, false), &expd, &focus);
-                let files = jax_plain(&scn, Some(rng.next()));
-                check(st, opts, line, conc, "jax/from_standard_transitive", &via_jax(&files, true), &expd, &focus);
+                let files = jax_plain(&scn_f, Some(rng.next()));
+                let mut expfd = exp_f.clone();
+                expfd.defaults = true;
+                check(st, opts, line, conc, "jax/from_standard_transitive+flags", &via_jax(&files, true), &expfd, &focus);
             }
         }
     }
@@ -129,7 +146,7 @@ pub fn run(args: &Args) {
             std::fs::write(&name, serde_json::to_string_pretty(&replay).unwrap()).ok();
             println!("VIOLATION property={prop} replay={name}");
         },
-        |i, line, st| replay_line(st, &opts, i, line),
+        |i, line, st| guard_case(st, &opts.prop.clone(), "replay-core", line, |st| replay_line(st, &opts, i, line)),
     );
     let extra = json!({"lines": lines.len(), "distinct_lines": distinct.len(), "shard_wall_s_max": t.secs()});
     finish(stats, args.req("out"), args.req("replay-dir"), extra);
@@ -146,7 +163,7 @@ pub fn replay_one(v: &Value) -> bool {
         concs: vec![],
     };
     let mut st = Stats::default();
-    replay_line(&mut st, &opts, 0, &v["line"]);
+    guard_case(&mut st, &opts.prop.clone(), "replay-core", &v["line"], |st| replay_line(st, &opts, 0, &v["line"]));
     for x in &st.violations {
         println!("reproduced: {}", x.what);
         if let Some(d) = x.replay["diffs"].as_array() {
